@@ -51,7 +51,7 @@ type c01Case struct {
 	Methods []string            `json:"request_methods"`
 }
 
-var c01MethodSets = [][]string{{"GET"}, {"POST"}, {"GET", "POST"}}
+var c01MethodSets = [][]string{{"GET"}, {"POST"}, {"GET", "POST"}, {"PUT", "DELETE", "GET"}}
 
 func permute(pool []string, k int, f func([]string)) {
 	cur := make([]string, 0, k)
@@ -81,7 +81,7 @@ func c01Gen(tier string, emit func(c01Case)) {
 	msets := c01MethodSets
 	if tier == "thorough" {
 		reqM = []string{"GET", "POST", "PUT", "HEAD"}
-		msets = [][]string{{"GET"}, {"POST"}, {"GET", "POST"}, {"HEAD"}}
+		msets = [][]string{{"GET"}, {"POST"}, {"GET", "POST"}, {"HEAD"}, refmodel.Methods}
 	}
 	withSets := func(pats []string) {
 		n := len(pats)
@@ -226,9 +226,9 @@ var c01Spec = fw.Spec[c01Case]{
 	},
 	Bounds: func(tier string) map[string]any {
 		if tier == "quick" {
-			return map[string]any{"pool": len(c01Pool), "K": "1..2 with all method sets {GET},{POST},{GET,POST}; 3 all-GET", "request_methods": "GET,POST,PUT", "paths": len(c01Paths)}
+			return map[string]any{"pool": len(c01Pool), "K": "1..2 with all method sets {GET},{POST},{GET,POST},{PUT,DELETE,GET}; 3 all-GET", "request_methods": "GET,POST,PUT", "paths": len(c01Paths)}
 		}
-		return map[string]any{"pool": len(c01Pool), "K": "1..3 with method sets {GET},{POST},{GET,POST},{HEAD}; 4 all-GET over the 10-pattern core pool", "request_methods": "GET,POST,PUT,HEAD", "paths": len(c01Paths)}
+		return map[string]any{"pool": len(c01Pool), "K": "1..3 with method sets {GET},{POST},{GET,POST},{HEAD},{all 9}; 4 all-GET over the 10-pattern core pool", "request_methods": "GET,POST,PUT,HEAD", "paths": len(c01Paths)}
 	},
 	Gen: c01Gen,
 	Run: c01Run,
